@@ -455,18 +455,31 @@ def b4_matching_complete(ctx, classes=((ISO, "_are_isomorphic"), (PSF, "_find"))
             raise AnalysisError(f"B4: {cls}._extend_stack(i1, n, in_use, stack) expected")
         i1, n, used, stack = ps
         okx = False
+        iters = (f"range({n} - 1, -1, -1)", f"range({n})", f"reversed(range({n}))")
+
+        def _elt_ok(e: ast.AST, iv: str) -> bool:
+            return PT.match(PT.compile_pattern(f"({i1} + 1, {iv}, {used}.union({{{iv}}}))"), e) is not None or \
+                PT.match(PT.compile_pattern(f"({i1} + 1, {iv}, {used} | {{{iv}}})"), e) is not None
+
         for lp in walk_local(g):
-            if not isinstance(lp, ast.For) or not isinstance(lp.target, ast.Name) or norm(lp.iter) not in (f"range({n} - 1, -1, -1)", f"range({n})", f"reversed(range({n}))"):
-                continue
-            iv = lp.target.id
-            pushes = [c for c in walk_local(lp) if isinstance(c, ast.Call) and norm(c.func) == f"{stack}.append" and len(c.args) == 1]
-            for c in pushes:
-                if PT.match(PT.compile_pattern(f"({i1} + 1, {iv}, {used}.union({{{iv}}}))"), c.args[0]) is None and \
-                        PT.match(PT.compile_pattern(f"({i1} + 1, {iv}, {used} | {{{iv}}})"), c.args[0]) is None:
-                    continue
-                gs = {(norm(t), p) for t, p in C.flatten_guards(C.guards(g, c, within=lp))}
-                if gs in ({(f"{iv} in {used}", False)}, {(f"{iv} not in {used}", True)}):
-                    okx = True
+            if isinstance(lp, ast.For) and isinstance(lp.target, ast.Name) and norm(lp.iter) in iters:
+                iv = lp.target.id
+                pushes = [c for c in walk_local(lp) if isinstance(c, ast.Call) and norm(c.func) == f"{stack}.append" and len(c.args) == 1]
+                for c in pushes:
+                    if not _elt_ok(c.args[0], iv):
+                        continue
+                    gs = {(norm(t), p) for t, p in C.flatten_guards(C.guards(g, c, within=lp))}
+                    if gs in ({(f"{iv} in {used}", False)}, {(f"{iv} not in {used}", True)}):
+                        okx = True
+            # the same as one call: stack.extend(<element> for i in <range> if i not in in_use)
+            if isinstance(lp, ast.Call) and norm(lp.func) == f"{stack}.extend" and len(lp.args) == 1 and isinstance(lp.args[0], (ast.GeneratorExp, ast.ListComp)) \
+                    and len(lp.args[0].generators) == 1:
+                gen = lp.args[0].generators[0]
+                if isinstance(gen.target, ast.Name) and norm(gen.iter) in iters and _elt_ok(lp.args[0].elt, gen.target.id):
+                    iv = gen.target.id
+                    gs = {(norm(t), p) for t, p in C.flatten_guards([(t, True) for t in gen.ifs])}
+                    if gs in ({(f"{iv} in {used}", False)}, {(f"{iv} not in {used}", True)}):
+                        okx = True
         if okx:
             ctx.ok("B4", f"{cls}._extend_stack offers every position of the second rule not yet in use, for the next position of the first, and marks it used")
         else:
@@ -651,15 +664,17 @@ def b7_equivalence_steps(ctx) -> None:
     else:
         ctx.violation("B7", f, f"when only {r2} is an equivalence rule map_rec must recurse on ({obj}, {r1}, codomain rule of {r2}.children[0])", construct=f"{PTM}.map_rec codomain step")
     b = PT.find_all(f, f"self.map_rec(_E_part, self.domain.rules_dict[{r1}.children[0]], {r2})")
-    if b and any(pol and norm(t) == f"{r1}.is_equivalence()" for t, pol in C.flatten_guards(C.guards(f, b[0][0]))):
-        part = b[0][1]["_E_part"]
-        fm = PT.find_all(f, f"_M_mo, _M_ix = {r1}.indexed_forward_map({obj})")
-        if fm and part == f"{fm[0][1]['_M_mo']}[0]":
+    fm = PT.find_all(f, f"_M_mo, _M_ix = {r1}.indexed_forward_map({obj})")
+    if not b:
+        ctx.violation("B7", f, f"when only {r1} is an equivalence rule map_rec must recurse on (forward image, domain rule of {r1}.children[0], {r2})", construct=f"{PTM}.map_rec domain step")
+    for node, bind in b:
+        part = bind["_E_part"]
+        if not any(pol and norm(t) == f"{r1}.is_equivalence()" for t, pol in C.flatten_guards(C.guards(f, node))):
+            ctx.violation("B7", node, f"the domain-only step `{norm(node)[:80]}` is taken although {r1} is not known to be an equivalence rule (a rule with several children loses all but the first)")
+        elif fm and part == f"{fm[0][1]['_M_mo']}[0]":
             ctx.ok("B7", "an equivalence step on the domain side only: the forward image moves on with the next rule of the domain, the codomain rule stays")
         else:
-            ctx.violation("B7", b[0][0], f"the object moved along the domain's equivalence step must be the forward image {r1}.indexed_forward_map({obj})[0][0]; found `{part}`")
-    else:
-        ctx.violation("B7", f, f"when only {r1} is an equivalence rule map_rec must recurse on (forward image, domain rule of {r1}.children[0], {r2})", construct=f"{PTM}.map_rec domain step")
+            ctx.violation("B7", node, f"the object moved along the domain's equivalence step must be the forward image {r1}.indexed_forward_map({obj})[0][0]; found `{part}`")
     # the matcher walks the same steps
     g = P.need_method(ISO, "_get_eq_descendant", own=True)
     ctx.analysed(g)
@@ -786,3 +801,132 @@ def b9_state_keyed_by_pairs(ctx) -> None:
                               "(one node can be matched with several of the other side; a one-sided table also makes the test asymmetric)")
     if n < 2:
         ctx.floor("B9", 99)
+
+
+# ------------------------------------------------------------------ B10 totality of the preparation
+def b10_expansion_until_spec(ctx) -> None:
+    """The queue running dry is a failure only if there still is no specification: the level
+    that empties the queue may be the one that completes it."""
+    P = ctx.P
+    m = P.need_method("ParallelInfo", "_expand_until_spec", own=True)
+    f = m.node
+    ctx.analysed(m)
+    n = 0
+    for t in walk_local(f):
+        if not isinstance(t, ast.Try):
+            continue
+        for h in t.handlers:
+            if h.type is None or "NoMoreClassesToExpandError" not in norm(h.type):
+                continue
+            for r in [x for st in h.body for x in ast.walk(st) if isinstance(x, ast.Raise)]:
+                n += 1
+                gs = {(norm(e), pol) for e, pol in C.flatten_guards(C.guards(f, r, within=h))}
+                if ("self.searcher.has_specification()", False) in gs:
+                    ctx.ok("B10", "an exhausted queue is reported as 'nothing found' only after has_specification() was asked again")
+                else:
+                    ctx.violation("B10", r, "NoMoreClassesToExpandError is turned into a failure without asking has_specification() again inside the handler: do_level raises it "
+                                  "when the queue empties during the level just worked on, which may be the level that completed the specification")
+    if n == 0:
+        # no handler that fails: the error must not escape either
+        calls = [c for c in walk_local(f) if isinstance(c, ast.Call) and norm(c.func) == "self.searcher.do_level"]
+        if calls and all(C.catching_handler(f, c, "NoMoreClassesToExpandError") is not None for c in calls):
+            ctx.ok("B10", "do_level runs under a NoMoreClassesToExpandError handler")
+        else:
+            ctx.violation("B10", f, "ParallelInfo._expand_until_spec lets NoMoreClassesToExpandError escape: a finite universe makes the finder fail instead of answering",
+                          construct="ParallelInfo._expand_until_spec handler")
+
+
+# ------------------------------------------------------------------ B11 / B12 equivalence-path comparison
+def _zip_calls(e: ast.AST) -> List[ast.Call]:
+    return [c for c in ast.walk(e) if isinstance(c, ast.Call) and isinstance(c.func, ast.Name) and c.func.id == "zip" and len(c.args) == 2]
+
+
+def b11_paths_same_length(ctx) -> None:
+    P = ctx.P
+    m = P.need_method("EqPathParallelSpecFinder", "_eq_path_matches", own=True)
+    f = m.node
+    ctx.analysed(m)
+    verdicts = [a for a in walk_local(f) if isinstance(a, ast.Assign) and isinstance(a.targets[0], ast.Subscript) and _zip_calls(a.value)]
+    verdicts += [r for r in C.returns_of(f) if r.value is not None and _zip_calls(r.value)]
+    if not verdicts:
+        raise AnalysisError("B11: _eq_path_matches no longer compares the two rule paths pairwise (zip)")
+    for v in verdicts:
+        for z in _zip_calls(v.value):
+            a, b = norm(z.args[0]), norm(z.args[1])
+            strict = any(k.arg == "strict" and isinstance(k.value, ast.Constant) and k.value.value is True for k in z.keywords)
+            conj = {norm(e) for e, pol in C.flatten_guards([(v.value, True)] + C.guards(f, v)) if pol}
+            if strict or f"len({a}) == len({b})" in conj or f"len({b}) == len({a})" in conj:
+                ctx.ok("B11", f"the rule paths `{a}` and `{b}` match only if they have the same length")
+            else:
+                ctx.violation("B11", z, f"`{norm(z)}` pairs the rules of the two equivalence paths without `len({a}) == len({b})`: zip stops at the shorter one (and "
+                              "drops the element it already took from the longer one), so a path with an extra non-equivalence rule is accepted as matching")
+
+
+def b12_path_checked_on_every_visit(ctx) -> None:
+    P = ctx.P
+    m = P.need_method("EqPathParallelSpecFinder", "_search_matching_info_recursion_base_cases_eq", own=True)
+    f = m.node
+    ctx.analysed(m)
+    ps = [x for x in D.param_names(f) if x != "self"]
+    id1, id2 = ps[0], ps[1]
+    n = 0
+    for r in C.returns_of(f):
+        if r.value is None or not norm(r.value).endswith("._VALID"):
+            continue
+        gs = C.flatten_guards(C.guards(f, r))
+        pos = {norm(e) for e, pol in gs if pol}
+        if not any(t.startswith(f"{id1} in ") for t in pos):
+            continue            # the atom case
+        n += 1
+        if any(t.startswith("self._eq_path_matches(") for t in pos):
+            ctx.ok("B12", "a pair already placed in both specifications is accepted only if the rules along this visit's equivalence paths match")
+        else:
+            ctx.violation("B12", r, f"a pair ({id1}, {id2}) already placed in both specifications is accepted without `_eq_path_matches(...)` holding on this visit: the pair was "
+                          "validated for the path it was first reached by, and this visit (another parent, or the recursion back to an ancestor) walks other rules")
+    if n == 0:
+        ctx.violation("B12", f, "no accepting return for pairs already placed in both specifications", construct=f"{m.qualname} accept")
+
+
+# ------------------------------------------------------------------ B13 leaves reached on one side first
+def b13_leaf_on_codomain_side(ctx) -> None:
+    """The matcher walks equivalence steps on either side independently (B7), so it pairs a
+    class that is merely *equivalent* to an atom with a plain atom.  The map must then be able to
+    take the domain's equivalence step while the codomain's rule is already a leaf: the
+    "domain moves, codomain stays" recursion has to be reachable before anything requires the
+    codomain's rule to be a rule with children."""
+    P = ctx.P
+    m = P.need_method(PTM, "map_rec", own=True)
+    f = m.node
+    ctx.analysed(m)
+    ps = [x for x in D.param_names(f) if x != "self"]
+    if len(ps) != 3:
+        raise AnalysisError("B13: map_rec(obj, rule1, rule2) expected")
+    _, r1, r2 = ps
+    stay = [c for c in walk_local(f) if isinstance(c, ast.Call) and norm(c.func) == "self.map_rec" and len(c.args) == 3
+            and norm(c.args[2]) == r2 and norm(c.args[1]) == f"self.domain.rules_dict[{r1}.children[0]]"]
+    if not stay:
+        ctx.violation("B13", f, f"map_rec never takes an equivalence step of the domain alone (map_rec(..., self.domain.rules_dict[{r1}.children[0]], {r2}))",
+                      construct=f"{PTM}.map_rec domain-only step")
+        return
+
+    def requires_inner(c: ast.Call) -> Optional[ast.AST]:
+        """A statement before c (dominating it) that fails for a childless codomain rule."""
+        for a in walk_local(f):
+            if isinstance(a, ast.Assert) and C.dominates(f, a, c):
+                for e, pol in C.flatten_guards([(a.test, True)]):
+                    if pol and norm(e) == f"isinstance({r2}, Rule)":
+                        return a
+        for e, pol in C.flatten_guards(C.guards(f, c)):
+            t = norm(e)
+            if pol and t in (f"{r2}.children", f"isinstance({r2}, Rule)"):
+                return e
+        return None
+
+    free = [c for c in stay if requires_inner(c) is None]
+    if free:
+        ctx.ok("B13", "the domain can take an equivalence step while the codomain's rule is already a leaf")
+    else:
+        blk = requires_inner(stay[0])
+        ctx.violation("B13", blk, f"every domain-only equivalence step of map_rec comes after `{norm(blk)[:70]}`, which fails when `{r2}` is a leaf (a verification rule is not a "
+                      "Rule): a class that is only equivalent to an atom, matched with a plain atom of the other specification, cannot be mapped (AssertionError), although "
+                      "the isomorphism test accepts the pair")
